@@ -172,12 +172,13 @@ def api_state(ss, sis, http_server=None):
             from allmydata.storage.immutable import BucketReader
             fns = dict(shares)
             e["immutable"] = {n: BucketReader(ss, fns[n], si, n).read(0, 1 << 30) for n in imm}
-            e["leases"] = sorted(set(lease_tuple(l) for l in ss.get_leases(si)))
         if mut:
             data = ss.slot_readv(si, mut, [(0, 1 << 30)])
             e["mutable"] = {n: data[n][0] for n in mut}
             e["mutable_len"] = {n: ss.get_mutable_share_length(si, n) for n in mut}
-            e["slot_leases"] = sorted(set(lease_tuple(l) for l in ss.get_slot_leases(si)))
+        if shares:
+            from allmydata.storage.shares import get_share_file
+            e["leases"] = {n: sorted(lease_tuple(l) for l in get_share_file(fn).get_leases()) for n, fn in shares}
         st[si] = e
     writers = []
     for home, bw in sorted(ss._bucket_writers.items()):
@@ -510,6 +511,13 @@ class History(object):
             self.legit_allocate()
 
     def legit_step(self):
+        try:
+            self._legit_step()
+        except Exception as e:      # noqa
+            # not an authorisation matter (the other client's own request failed); keep the history going
+            self.ctx.count("legit-op-failed:" + type(e).__name__)
+
+    def _legit_step(self):
         c = self.r.random()
         if c < 0.25:
             self.legit_allocate()
@@ -535,6 +543,12 @@ class History(object):
         if self.slots:
             choices += ["slot"] * (6 if "mutable" in name else 1)
         choices += ["nonexistent"]
+        # keep immutable and mutable storage indexes apart: a fully authorised random request that
+        # puts a share of the other type there only makes later operations fail for unrelated reasons
+        if name == "allocate_buckets":
+            choices = [c for c in choices if c != "slot"]
+        if name == "mutable_read_test_write":
+            choices = [c for c in choices if c in ("slot", "nonexistent")]
         kind = r.choice(choices)
         if kind == "in-progress":
             si, sh = r.choice(sorted(self.uploads))
@@ -733,9 +747,9 @@ class History(object):
             if st_before.get("immutable"):
                 return
             if had_mutable and si in slots_before:
-                target = "(TRtw (Some %s))" % T.bytes_(slots_before[si])
+                target = "(TRtw %s (Some %s))" % (T.boolean(not garbage), T.bytes_(slots_before[si]))
             else:
-                target = "(TRtw None)"
+                target = "(TRtw %s None)" % T.boolean(not garbage)
         else:
             target = "TPlain"
         term = "status_agrees (auth_status %s %s %s %s %s) %s %s" % (
@@ -896,8 +910,8 @@ def extract_cases(ctx, members, n):
 # =============================================================================
 def check_routes(ctx, members, routes):
     ctx.correspondence("route-table-vs-klein-url-map")
-    table = set((r.url, frozenset(r.methods), r.name) for r in routes)
     live = set(runtime_rules())
+    table = set((r.url, frozenset(r.methods), r.name) for r in routes) if routes is not None else live
     if table != live:
         ctx.mismatch("route-table-vs-runtime", "translated route table and Klein's url_map differ: only in table %r, only at run time %r"
                      % (sorted(map(str, table - live)), sorted(map(str, live - table))),
@@ -926,7 +940,7 @@ def check_routes(ctx, members, routes):
                 ctx.oracle_fail("route-without-authorisation:" + endpoint,
                                 "%s %s without any credentials answered %d%s" % (m, rule, code, " and changed the state" if before != after else ""),
                                 case={"rule": rule, "method": m, "endpoint": endpoint}, expected=401, observed=code)
-    for r in routes:
+    for r in routes or []:
         if not r.authorised:
             ctx.note("route %s is registered without _authorized_route" % r.name)
     shutil.rmtree(d, ignore_errors=True)
@@ -934,7 +948,14 @@ def check_routes(ctx, members, routes):
 
 def run(ctx):
     ctx.correspondence("http-status-vs-model")
-    members, routes = route_table()
+    try:
+        members, routes = route_table()
+    except Exception as e:      # noqa  (TranslatorAbort: a route-registering construct the translator does not know)
+        ctx.mismatch("route-table-not-translatable", "the route table cannot be extracted from http_server.py: %s" % e,
+                     correspondence="route-table-vs-klein-url-map")
+        # still sweep whatever Klein registered at run time for routes that answer without credentials
+        check_routes(ctx, [], None)
+        return
     check_routes(ctx, members, routes)
     extract_cases(ctx, members, ctx.n(300, 4000))
     nh = ctx.n(9, 80)
